@@ -718,10 +718,31 @@ func h264PayInput(r *Rand, mtu int) []byte {
 }
 
 func genC08H264(x *Ctx) {
+	// DisableStapA is a public field: the flag in force is part of every call.  `toggle` makes it
+	// change in the middle of a history (pending SPS/PPS then stay pending while it is set).
 	run := func(c *Case, disable bool, calls []PayCall) {
-		c.I.Bool(disable)
+		flags := make([]bool, len(calls))
+		toggle := c.R.Chance(1, 6) && len(calls) > 1
+		for k := range flags {
+			flags[k] = disable
+			if toggle && c.R.Bool() {
+				flags[k] = !disable
+			}
+		}
+		if toggle {
+			c.Tag("stapa-toggled")
+		}
+		c.I.Nat(len(flags))
+		for _, f := range flags {
+			c.I.Bool(f)
+		}
 		writeCalls(&c.I, calls)
-		observePayHist(&c.O, func() payloader { return &codecs.H264Payloader{DisableStapA: disable} }, calls)
+		p, twin := &codecs.H264Payloader{}, &codecs.H264Payloader{}
+		c.O.Nat(len(calls))
+		for k, cl := range calls {
+			p.DisableStapA, twin.DisableStapA = flags[k], flags[k]
+			observePay(&c.O, p, twin, cl.MTU, cl.Input)
+		}
 	}
 	// (a) grid: MTU 0..20 exhaustively (21..64 sampled, 1200, 1500, 65535) × SPS,PPS,IDR histories
 	//     whose STAP-A straddles the MTU, in one buffer and over three calls
